@@ -172,7 +172,7 @@ class TypeSpec(object):
 
     def assumption(self, t):
         k = self.kind
-        if k == 'any':
+        if k in ('any', 'opaque'):
             return z3.BoolVal(True)
         if k == 'str':
             base = Val.is_S(t)
@@ -245,7 +245,7 @@ def parse_spec(s):
         head, rest = s.split('[', 1)
         elem = parse_spec(rest[:-1])
         s = head
-    if s in ('str', 'int', 'bool', 'any', 'dict', 'set', 'list', 'tuple', 'none'):
+    if s in ('str', 'int', 'bool', 'any', 'dict', 'set', 'list', 'tuple', 'none', 'opaque'):
         ts = TypeSpec(s, (), opt, elem)
     else:
         names = s.split('|')
@@ -270,7 +270,9 @@ def schema(cls, **fields):
 
 
 def field_spec(classes, field):
-    """Type spec of `field` for an object statically known to be an instance of one of `classes`."""
+    """Type spec of `field` for an object statically known to be an instance of one of `classes`.
+    If the class itself does not declare the field, the declarations of its subclasses are used
+    (the load can only succeed on an instance of such a subclass) provided they agree."""
     found = []
     for c in classes:
         hit = None
@@ -279,17 +281,45 @@ def field_spec(classes, field):
                 hit = SCHEMA[(k, field)]
                 break
         if hit is None:
-            # a subclass may declare it
+            subs = []
             for d in UNIVERSE.subclasses(c):
-                if (d, field) in SCHEMA:
-                    hit = None
-                    break
-            return None
+                for k in d.__mro__:
+                    if (k, field) in SCHEMA:
+                        subs.append(SCHEMA[(k, field)])
+                        break
+            if not subs:
+                continue
+            hit = subs[0]
+            for s2 in subs[1:]:
+                if s2 is not hit and repr(s2) != repr(hit):
+                    return None
         found.append(hit)
     if not found:
         return None
     first = found[0]
     for f in found[1:]:
-        if f is not first:
-            return None
+        if f is not first and repr(f) != repr(first):
+            first = join_specs(first, f)
+            if first is None:
+                return None
     return first
+
+
+def join_specs(h1, h2):
+    if h1 is None or h2 is None:
+        return None
+    if h1.kind == 'none':
+        return h2.with_opt(True)
+    if h2.kind == 'none':
+        return h1.with_opt(True)
+    if h1.kind == h2.kind and h1.kind != 'obj':
+        if h1.kind == 'dict':
+            best = h1 if (h1.classes or h1.keyed or h1.elem is not None) else h2
+            return best.with_opt(h1.opt or h2.opt)
+        if h1.kind == 'union':
+            return None
+        return TypeSpec(h1.kind, (), h1.opt or h2.opt, h1.elem if h1.elem is not None else h2.elem)
+    if h1.kind == 'obj' and h2.kind == 'obj':
+        cs = tuple(dict.fromkeys(h1.classes + h2.classes))
+        return TypeSpec('obj', cs, h1.opt or h2.opt)
+    return None
